@@ -100,6 +100,11 @@ func Sets() [][]Def {
 		{L("KFUNC", "func"), L("KTYPE", "type"), L("KGO", "go"), D("ID", "$ID"), D("WS", "$WS"), D("COMMENT", "$COMMENT")},
 		{L("LET", "let"), L("LE", "le"), L("LL", "l"), P("LID", "l[a-z]*")}, // literals fully shadowing nothing; prefixes
 		{L("AB", "ab"), P("SHADOW", "a(b)"), P("ABS", "ab+")},               // SHADOW owns no state
+		// a terminal owning no state at each position of the definition order (first, middle, two in a row)
+		{L("IF", "if"), L("DO", "do"), P("KW", "if|do"), P("NUM", "[0-9]+"), P("WORD", "[a-z]+")},
+		{L("IF", "if"), L("DO", "do"), P("KWD", "if|do"), P("NM", "[0-9]+"), P("WORD", "[a-z]+")},
+		{L("AB", "ab"), P("AA", "(a)b"), P("AC", "a(b)"), P("ABS", "ab+"), P("ZZZ", "z+")},
+		{I("if"), I("do"), P("KW", "if|do"), P("NUM", "[0-9]+"), P("WORD", "[a-z]+")},
 		{D("NUMBER", "$NUMBER"), D("STRING", "$STRING"), D("EOL", "$WS"), L("MINUS", "-")},
 		{P("AA", "a"), P("BC", "b|c"), P("CD", "(cd)+"), P("OPT", "e?f")},
 		{L("SEMI", ";"), L("LB", "{"), L("RB", "}"), L("LLB", "{{"), P("WORD", `\w+`), P("SP", `[ \x09]+`)},
